@@ -762,11 +762,17 @@ impl<'a, 'tcx> Extractor<'a, 'tcx> {
                     AggregateKind::Adt(did, vi, _, _, _) => {
                         let def = self.tcx.adt_def(*did);
                         let v = def.variant(*vi);
+                        let dv = if def.is_enum() {
+                            format!("{}", def.discriminant_for_variant(self.tcx, *vi).val)
+                        } else {
+                            "0".to_string()
+                        };
                         let _ = write!(
                             s,
-                            "\"ak\":\"adt\",\"adt\":{},\"variant\":{},\"fields\":[",
+                            "\"ak\":\"adt\",\"adt\":{},\"variant\":{},\"dv\":\"{}\",\"fields\":[",
                             esc(&self.path(*did)),
-                            esc(v.name.as_str())
+                            esc(v.name.as_str()),
+                            dv
                         );
                         for (i, f) in v.fields.iter().enumerate() {
                             if i > 0 {
